@@ -626,7 +626,10 @@ class _LiteralComp(ast.NodeTransformer):
             # table rules read as a permutation: it stays
             reorder = isinstance(node.elt, ast.Subscript) and isinstance(
                 node.elt.slice, ast.Name) and isinstance(
-                g.target, ast.Name) and node.elt.slice.id == g.target.id
+                g.target, ast.Name) and node.elt.slice.id == g.target.id \
+                and isinstance(g.iter, (ast.Tuple, ast.List)) and all(
+                isinstance(x, ast.Constant) and isinstance(x.value, int)
+                for x in g.iter.elts)
             if isinstance(g.iter, (ast.Tuple, ast.List)) and g.iter.elts and \
                     isinstance(g.target, ast.Name) and not reorder and not any(
                     isinstance(e, ast.Starred) for e in g.iter.elts) and \
